@@ -110,6 +110,12 @@ Proof.
 Qed.
 Lemma wdot_sym (w x y : Rvec) : wdot w x y = wdot w y x.
 Proof. apply wdot_comm. Qed.
+Lemma wdot_vsub_r' n (w z x y : Rvec) : length w = n -> length z = n -> length x = n -> length y = n ->
+  wdot w z (vsub x y) = wdot w z x - wdot w z y.
+Proof. intros. rewrite wdot_sym, (wdot_vsub_l n) by assumption. rewrite (wdot_sym w x), (wdot_sym w y). reflexivity. Qed.
+Lemma wdot_vscal_r' n c (w z x : Rvec) : length w = n -> length z = n -> length x = n ->
+  wdot w z (vscal c x) = c * wdot w z x.
+Proof. intros. rewrite wdot_sym, (wdot_vscal_l n), wdot_sym by assumption. reflexivity. Qed.
 
 (* ||z - x||^2 - ||p - x||^2 = ||z - p||^2 + 2 <z - p, p - x> *)
 Lemma wnormsq_three_point n : forall m z p x : Rvec,
@@ -332,4 +338,87 @@ Proof.
       lra. }
   destruct K as (vp & Hvp & K). split; [eexists; eassumption|].
   intros z Hz. rewrite !prox_obj_R, Hvp. apply K; assumption.
+Qed.
+
+(* =====================================================================================
+   The variational-inequality (subgradient) form of "p is the proximal point":
+       f(z) >= f(p) + <x - p, z - p>_m      for all z.
+   It implies minimality (is_proxm_of_subgrad) WITHOUT any convexity assumption, is
+   preserved by every calculus rule, and yields uniqueness and firm non-expansiveness.
+   ===================================================================================== *)
+Definition is_proxs (n : nat) (f : Rvec -> option R) (m x p : Rvec) : Prop :=
+  length p = n /\
+  exists vp, f p = Some vp /\
+    forall z, length z = n -> ele (Some (vp + wdot m (vsub z p) (vsub x p))) (f z).
+
+Lemma is_proxs_proxm n f m x p :
+  length m = n -> length x = n -> allpos m -> is_proxs n f m x p -> is_proxm n f m x p.
+Proof.
+  intros Hm Hx Pm (Hp & vp & Hv & Hs). eapply is_proxm_of_subgrad; eauto.
+Qed.
+
+Lemma is_proxs_ext n f f' m x p :
+  (forall z, length z = n -> f' z = f z) -> is_proxs n f m x p -> is_proxs n f' m x p.
+Proof.
+  intros He (Hl & vp & Hv & Ho). split; [assumption|]. exists vp. split.
+  - rewrite He by assumption. assumption.
+  - intros z Hz. rewrite He by assumption. apply Ho; assumption.
+Qed.
+
+Lemma is_proxs_add_const n f c m x p :
+  is_proxs n f m x p -> is_proxs n (fun z => eadd (f z) (Some c)) m x p.
+Proof.
+  intros (Hl & vp & Hv & Ho). split; [assumption|]. exists (vp + c). split.
+  - rewrite Hv. reflexivity.
+  - intros z Hz. specialize (Ho z Hz). destruct (f z) as [vz|]; cbn [eadd ele] in *; numR; [lra | exact I].
+Qed.
+
+(* one-dimensional form *)
+Definition sub1 (phi : R -> option R) (sigma x p : R) : Prop :=
+  exists vp, phi p = Some vp /\ forall t, ele (Some (vp + (x - p) / sigma * (t - p))) (phi t).
+
+Lemma sub1_ext phi psi s x p : (forall t, psi t = phi t) -> sub1 phi s x p -> sub1 psi s x p.
+Proof. intros E (vp & Hv & Hs). exists vp. split; [rewrite E; exact Hv|]. intros t. rewrite E. apply Hs. Qed.
+
+Inductive sep_sub : list (R -> option R) -> Rvec -> Rvec -> Rvec -> Rvec -> Prop :=
+| ss_nil : sep_sub [] [] [] [] []
+| ss_cons phi w s x p phis ws ss xs ps :
+    0 < w -> 0 < s -> sub1 phi s x p -> sep_sub phis ws ss xs ps ->
+    sep_sub (phi :: phis) (w :: ws) (s :: ss) (x :: xs) (p :: ps).
+
+Lemma sep_sub_len phis w s x p : sep_sub phis w s x p ->
+  length phis = length w /\ length s = length w /\ length x = length w /\ length p = length w.
+Proof. induction 1; cbn; intuition lia. Qed.
+
+Theorem sep_proxs phis w sv x p :
+  sep_sub phis w sv x p -> is_proxs (length w) (sepsum phis w) (metric w sv) x p.
+Proof.
+  intros H. pose proof (sep_sub_len _ _ _ _ _ H) as (L1 & L2 & L3 & L4).
+  split; [assumption|]. clear L1 L2 L3 L4.
+  induction H as [|phi w s x p phis ws ss xs ps Hw Hs (v1 & Hv1 & Ho) Hrest (vr & Hvr & IH)].
+  - exists 0. split; [reflexivity|]. intros [|? ?] Hz; cbn in Hz; try lia. cbn. lra.
+  - exists (w * v1 + vr). split.
+    { cbn [sepsum]. rewrite Hv1, Hvr. reflexivity. }
+    intros [|t z] Hz; cbn [length] in Hz; try lia.
+    specialize (IH z ltac:(lia)). specialize (Ho t).
+    cbn [sepsum]. unfold metric in *; unfv; cbn [vmap2]. rewrite wdot_cons'.
+    destruct (phi t) as [vt|]; cbn [escal eadd ele] in *; [|exact I].
+    destruct (sepsum phis ws z) as [vz|]; cbn [ele] in *; [|exact I].
+    numR.
+    assert (E1 : w / s * ((t - p) * (x - p)) = w * ((x - p) / s * (t - p))) by (field; lra).
+    assert (Hm : w * (v1 + (x - p) / s * (t - p)) <= w * vt) by (apply Rmult_le_compat_l; lra).
+    lra.
+Qed.
+
+(* firm non-expansiveness and uniqueness *)
+Theorem proxs_firmly_nonexpansive n f m x1 x2 p1 p2 :
+  length m = n -> length x1 = n -> length x2 = n ->
+  is_proxs n f m x1 p1 -> is_proxs n f m x2 p2 ->
+  wnormsq m (vsub p1 p2) <= wdot m (vsub p1 p2) (vsub x1 x2).
+Proof.
+  intros Hm H1 H2 (L1 & v1 & E1 & S1) (L2 & v2 & E2 & S2).
+  specialize (S1 p2 L2). specialize (S2 p1 L1). rewrite E2 in S1. rewrite E1 in S2. cbn [ele] in *.
+  unfold wnormsq.
+  rewrite !(wdot_vsub_l n), !(wdot_vsub_r' n) in * by auto with vlen.
+  lra.
 Qed.
